@@ -490,7 +490,8 @@ class BaseDocutilsDirective(tinydocutils.directives.Directive):
             # Append list of supported fields
             node["fields"] = rstobject_spec.fields
         elif self.name in {"pubdate", "updated-date"}:
-            date = self.parse_date(self.arguments[0])
+            # The argument is optional as far as docutils is concerned: it may be absent
+            date = self.parse_date(self.arguments[0] if self.arguments else "")
             if isinstance(date, ValueError):
                 # Throw error and set date field to None
                 err = "Expected ISO 8061 date format (YYYY-MM-DD)"
